@@ -512,6 +512,11 @@ func runUnit(id, hdir, scratch string, u UnitSpec, o runOpts, listed map[string]
 			}
 			in := NewInterp(prog, cfg)
 			defer in.solver.Close()
+			defer func() {
+				if in.cross != nil {
+					in.cross.Close()
+				}
+			}()
 			if o.vector != "" {
 				in.pinned = []uint64{}
 				for _, f := range strings.Split(o.vector, ",") {
